@@ -90,6 +90,29 @@ if sizes != [3]:
                  + ";\n   ".join(marked) + "].\n")
     report["marked"] = len(marked)
 
+    # the same with the marker given as a plain FUNCTION, after a call with ANOTHER function of the same
+    # qualified name (closures of one factory): widths unfolded one level, so that the phase-space
+    # function actually used inside them is visible
+    def make_phsp(head):
+        def rho(s_, m_a_, m_b_):
+            return head(s_, m_a_, m_b_)
+        return rho
+
+    def unfold_widths(e):
+        return e.replace(lambda x: isinstance(x, EnergyDependentWidth), lambda x: x.evaluate())
+
+    f_decoy, f_marker = make_phsp(sp.Function("rhoDecoy")), make_phsp(rhoX)
+    assert f_decoy.__qualname__ == f_marker.__qualname__ and f_decoy is not f_marker
+    hist = []
+    for hat in (False, True):
+        for n in (1, 2):
+            kw = dict(parametrize=True, return_t_hat=hat, angular_momentum=Lx, meson_radius=dx)
+            RelativisticKMatrix.formulate(n, npoles, phsp_factor=f_decoy, **kw)
+            m = RelativisticKMatrix.formulate(n, npoles, phsp_factor=f_marker, **kw)
+            hist.append(f'("return_t_hat={hat}/n={n}", [' + "; ".join(ser(unfold_widths(e)) for e in m) + "])")
+    lines.append("Definition gen_marked_hist : list (string * list expr) :=\n  ["
+                 + ";\n   ".join(hist) + "].\n")
+
 with open(out, "w") as f:
     f.write("\n".join(lines))
 print("ok", report)
